@@ -450,7 +450,13 @@ class CGenerator:
         return s
 
     def _generate_struct_union_body(self, members: List[c_ast.Node]) -> str:
-        return "".join(self._generate_stmt(decl) for decl in members)
+        return "".join(
+            # A static assertion has no node for its ';' in a member list
+            self._make_indent() + self.visit(decl) + ";\n"
+            if isinstance(decl, c_ast.StaticAssert)
+            else self._generate_stmt(decl)
+            for decl in members
+        )
 
     def _generate_enum_body(self, members: List[c_ast.Enumerator]) -> str:
         # `[:-2] + '\n'` removes the final `,` from the enumerator list
